@@ -40,7 +40,14 @@ def main():
                 t0 = time.time()
                 rc, out = sh([os.path.join(VERIF, "check"), pid, "--tier", "quick"], cwd=VERIF, timeout=3600)
                 viol = [l for l in out.splitlines() if l.startswith("VIOLATION")]
-                res[pid] = dict(exit=rc, violations=viol[:5], wall_s=round(time.time() - t0, 1),
+                sigs = []
+                for v in viol:
+                    try:
+                        rep = json.load(open(v.split("replay=")[1].split()[0]))
+                        sigs.append(rep.get("sig") or "")
+                    except Exception:
+                        pass
+                res[pid] = dict(exit=rc, violations=viol[:5], sigs=sigs[:8], wall_s=round(time.time() - t0, 1),
                                 caught=(rc == 1 and bool(viol)),
                                 summary=[l for l in out.splitlines() if l.startswith(pid + " tier=")][-1:],
                                 no_longer_checks=[l.strip()[:300] for l in out.splitlines() if "no-longer-checks" in l][:4])
